@@ -55,37 +55,10 @@ func (w *World) ruleDateSpecUnit(r *Report, rule string) {
 		r.undecided(rule, "date decoder", "-", "not found")
 		return
 	}
-	fd := w.flow(c.Dec)
-	forms, err := w.decForms(c.Dec, fd)
-	if err != nil {
-		r.undecided(rule, fnName(c.Dec), "-", err.Error())
-		return
-	}
-	want := map[int64]string{0x4a: "milliseconds", 0x4b: "minutes"}
-	for _, df := range forms {
-		if df.IsErr {
-			continue
-		}
-		tags, _ := df.Tags.Elems(4)
-		ret := df.Block.Instrs[len(df.Block.Instrs)-1].(*ssa.Return)
-		unit := "?"
-		if call, ok := ret.Results[0].(*ssa.Call); ok && call.Call.StaticCallee() != nil {
-			switch qualifiedFnName(call.Call.StaticCallee()) {
-			case "time.UnixMilli":
-				unit = "milliseconds"
-			case "time.Unix":
-				unit = "seconds"
-				if t := fd.term(call.Call.Args[0]); t.K == TBin && t.Op == token.MUL && t.B.K == TConst && t.B.C.Int64() == 60 {
-					unit = "minutes"
-				}
-			}
-		}
-		for _, t := range tags {
-			if want[t] == "" {
-				continue
-			}
-			r.add(rule, fmt.Sprintf("%s · unit of date form x%02x", fnName(c.Dec), t), df.Pos, unit == want[t], fmt.Sprintf("payload interpreted as %s; the grammar defines it as %s", unit, want[t]))
-		}
+	want := map[int]string{0x4a: "milliseconds", 0x4b: "minutes"}
+	for _, t := range []int{0x4a, 0x4b} {
+		unit, pos := w.decoderDateUnit(c.Dec, t)
+		r.add(rule, fmt.Sprintf("%s · unit of date form x%02x", fnName(c.Dec), t), pos, unit == want[t], fmt.Sprintf("payload interpreted as %s; the grammar defines it as %s", unit, want[t]))
 	}
 }
 
